@@ -1745,7 +1745,10 @@ impl<'a, W: AsRef<[u64]>> YamlCursor<'a, W> {
                         keyed.sort_by(|a, b| a.0.cmp(&b.0));
                         items = keyed.into_iter().map(|(_, field)| field).collect();
                     }
-                    let last_index = items.len() - 1;
+                    // A key with no value node (`?` followed by a bare `:`)
+                    // makes `fields` non-empty while yielding no field, so
+                    // `items` can be empty here: `len() - 1` would underflow.
+                    let last_index = items.len().saturating_sub(1);
                     for (i, field) in items.into_iter().enumerate() {
                         if i != 0 {
                             out.write_str(", ")?;
